@@ -83,9 +83,11 @@ def matrix():
                         if naming == "colocated" and (not fam.startswith("combo_") or form in ("repo", "linter", "file")):
                             continue  # naming the OTHER rule that sits on the same line
                         if form in ("repo", "linter"):
-                            for pat in range(4):
+                            for pat in range(5):
                                 for carrier in (("thailintignore", "config") if form == "repo" else ("section",)):
-                                    cells.append({"lang": lang, "family": fam, "form": form, "placement": placement, "naming": naming, "pattern": pat, "carrier": carrier})
+                                    # the files live in pkg/ or, for every other cell, in the hidden directory .gen/
+                                    pkg = "pkg" if (len(cells) + pat) % 2 == 0 else ".gen"
+                                    cells.append({"lang": lang, "family": fam, "form": form, "placement": placement, "naming": naming, "pattern": pat, "carrier": carrier, "pkg": pkg})
                         else:
                             cells.append({"lang": lang, "family": fam, "form": form, "placement": placement, "naming": naming})
     return cells
@@ -106,7 +108,7 @@ def filling(rng, lang, fam):
     order = list(range(6))
     rng.shuffle(order)
     return {"others": pool[:2], "vars": [rng.randrange(6) for _ in range(6)], "order": order,
-            "carrier": rng.choice(["thailintignore", "config"]), "pattern": rng.randrange(4)}
+            "carrier": rng.choice(["thailintignore", "config"]), "pattern": rng.randrange(5)}
 
 
 def build(case):
@@ -114,7 +116,8 @@ def build(case):
     lang, fam = case["lang"], case["family"]
     f = case["fill"]
     ext = seeds.EXT[lang]
-    main = "pkg/main" + ext
+    pkg = case.get("pkg", "pkg")
+    main = pkg + "/main" + ext
     parts = []
     files = {}
     config = {}
@@ -123,7 +126,7 @@ def build(case):
         names = sorted(setf)
         # the first file of the set is the main file (gets the other families' seeds appended); the others are siblings
         for n in names[1:]:
-            files["pkg/" + n] = setf[n]
+            files[pkg + "/" + n] = setf[n]
         base_text = setf[names[0]].rstrip("\n").split("\n")
         parts.append(seeds.Snippet(base_text, [], fam))
         parts.append(seeds.Snippet(_second_occurrence(lang, fam), [], fam))
@@ -253,8 +256,8 @@ def apply_directive(lines, form, anchor, out_anchor, name, c, placement, span=1)
     raise ValueError(form)
 
 
-PATTERNS_IN = ["pkg/main{ext}", "pkg/**", "**/main{ext}", "*{ext}"]
-PATTERNS_OUT = ["pkg/other{ext}", "lib/**", "**/mainx{ext}", "*.zz"]
+PATTERNS_IN = ["{pkg}/main{ext}", "{pkg}/**", "**/main{ext}", "*{ext}", "{pkg}/"]
+PATTERNS_OUT = ["{pkg}/other{ext}", "lib/**", "**/mainx{ext}", "*.zz", "{bare}/"]  # {bare}: the directory name without its first character
 
 
 def key_of(v, cross_rule_prefix):
@@ -307,8 +310,13 @@ def check(case) -> Case:
                 ext = seeds.EXT[lang]
                 pidx = case.get("pattern", case["fill"]["pattern"])
                 carrier = case.get("carrier", case["fill"]["carrier"])
-                pat = (PATTERNS_IN if placement == "in" else PATTERNS_OUT)[pidx].format(ext=ext)
-                hit = (lambda fp: fp == main) if pidx in (0, 2) else (lambda fp: fp.endswith(ext))
+                pkg = case.get("pkg", "pkg")
+                # look-alike directory for the out-of-scope `dir/` pattern: the name without its first character for the
+                # repository list (gitignore semantics: whole components); per-linter lists additionally match by substring
+                # (original behaviour, pinned by thai-lint's tests), so there the look-alike must not be a substring
+                bare = pkg[1:] if form == "repo" else pkg + "x"
+                pat = (PATTERNS_IN if placement == "in" else PATTERNS_OUT)[pidx].format(ext=ext, pkg=pkg, bare=bare)
+                hit = (lambda fp: fp == main) if pidx in (0, 2) else ((lambda fp, pkg=pkg: fp.startswith(pkg + "/")) if pidx == 4 else (lambda fp: fp.endswith(ext)))
                 newfiles = dict(files)
                 cfg = {k: dict(v) for k, v in config.items()}
                 extra = {}
@@ -334,7 +342,7 @@ def check(case) -> Case:
                         q.write(rel, txt)
                     after, an2 = lint_all(q, cmds)
                 desc = {"pattern": pat, "where": sec if form == "linter" else carrier}
-                patform = ["exact", "dir/**", "**/name", "*.ext"][pidx] + ("" if form == "linter" else "@" + carrier)
+                patform = ["exact", "dir/**", "**/name", "*.ext", "dir/"][pidx] + ("" if form == "linter" else "@" + carrier) + ("|hidden-dir" if pkg.startswith(".") else "")
             else:
                 name = spell(named_rule, sp, lang)
                 if name is None or (sp == "bare" and naming == "other"):
